@@ -43,6 +43,7 @@ const ATTRS: &[&str] = &[
     r#"d="M0 0 z 5""#,
     r#"count="3""#,
     r#"transform="scale(-1 1)""#,
+    r##"a="{{width}} {{1 +}} {{#missing~w}} ${x""##,
 ];
 
 const TEXTS: &[&str] = &[
@@ -402,6 +403,11 @@ pub fn run(tier: Tier) -> i32 {
     }
     for a in ATTRS {
         subs.push(wrap("", &format!("<rect {a}/>")));
+        // attributes on the embedded <svg> start tag itself (never evaluated, whatever they look like)
+        subs.push(wrap(&format!(" {a}"), "<rect/>"));
+        if !a.starts_with("class=") {
+            subs.push(wrap(&format!(" {a} width=\"{{{{width}}}}\" class=\"tpl {{{{kind}}}}\" data-e=\"{{{{1 +}}}} {{{{#missing~w}}}} $nope\""), "t"));
+        }
     }
     let st = run_space(subs.len() * 5, |i| check_nested(&subs[i / 5], i % 5));
     rep.sample(json!({"leg": "nested", "sub": subs[subs.len() / 2], "positions": 5}));
